@@ -1,8 +1,8 @@
 // Package c01: fault-atomicity of the command processor pipeline (property C01).
 //
 // rig.go: an external replica of pkg/processors/command/impl_test.go:setUp. One test application
-// (CDoc test.Doc with an int64 field V, a view test.Proj filled by one idempotent sync projector:
-// row (ws, WLogOffset) -> event stamp) is served by the real istructsmem, the real sync actualizer
+// (CDoc test.Doc with an int64 field V, three views test.Proj0..2 each filled by its own idempotent
+// sync projector: row (ws, WLogOffset) -> event stamp) is served by the real istructsmem, the real sync actualizer
 // and the real command processor over one in-memory app storage behind kit.Wrap. The storage
 // survives "restarts" (processor only, or everything above the storage). Every storage write is
 // classified by its logical target (PLog / Records / View / WLog, recognised by the key prefix) and
@@ -57,8 +57,10 @@ import (
 
 var (
 	qnDoc    = appdef.NewQName("test", "Doc")
-	qnView   = appdef.NewQName("test", "Proj")
-	qnProj   = appdef.NewQName("test", "Projector")
+	// numProj sync projectors, each writing its own view (the sync actualizer keeps them in a Go
+	// map: the order in which their intents are flushed is random per deployment)
+	qnViews = []appdef.QName{appdef.NewQName("test", "Proj0"), appdef.NewQName("test", "Proj1"), appdef.NewQName("test", "Proj2")}
+	qnProjs = []appdef.QName{appdef.NewQName("test", "Projector0"), appdef.NewQName("test", "Projector1"), appdef.NewQName("test", "Projector2")}
 	qnCUD    = istructs.QNameCommandCUD
 	qnWS     = appdef.NewQName(appdef.SysPackage, "TestWS")
 	qnWSKind = appdef.NewQName(appdef.SysPackage, "TestWSKind")
@@ -72,6 +74,7 @@ const (
 	viewOff    = "Off"
 	viewStamp  = "Stamp"
 	numWS      = 3
+	numProj    = 3
 	firstUser  = uint64(istructs.FirstUserRecordID)
 	sysRecords = 19 // consts.SysView_Records (istructsmem/internal/consts: 16 + 3)
 	sysPLog    = 20 // consts.SysView_PLog
@@ -272,40 +275,47 @@ func (r *rig) boot() error {
 	wsdescutil.AddWorkspaceDescriptorStubDef(wsb)
 	wsb.AddObject(istructs.QNameRaw).AddField(processors.Field_RawObject_Body, appdef.DataKind_string, true, constraints.MaxLen(appdef.MaxFieldLength))
 	wsb.AddCDoc(qnDoc).AddField(fldV, appdef.DataKind_int64, false)
-	view := wsb.AddView(qnView)
-	view.Key().PartKey().AddField(viewP, appdef.DataKind_int64)
-	view.Key().ClustCols().AddField(viewOff, appdef.DataKind_int64)
-	view.Value().AddField(viewStamp, appdef.DataKind_int64, true)
+	for _, qn := range qnViews {
+		view := wsb.AddView(qn)
+		view.Key().PartKey().AddField(viewP, appdef.DataKind_int64)
+		view.Key().ClustCols().AddField(viewOff, appdef.DataKind_int64)
+		view.Value().AddField(viewStamp, appdef.DataKind_int64, true)
+	}
 	wsb.AddCommand(qnCUD)
 	wsb.AddRole(iauthnz.QNameRoleAuthenticatedUser)
 	wsb.AddRole(iauthnz.QNameRoleEveryone)
 	wsb.AddRole(iauthnz.QNameRoleSystem)
-	prj := wsb.AddProjector(qnProj)
-	prj.SetSync(true).Events().Add([]appdef.OperationKind{appdef.OperationKind_Execute}, filter.QNames(qnCUD))
-	prj.Intents().Add(sys.Storage_View, qnView)
+	for j := range qnProjs {
+		prj := wsb.AddProjector(qnProjs[j])
+		prj.SetSync(true).Events().Add([]appdef.OperationKind{appdef.OperationKind_Execute}, filter.QNames(qnCUD))
+		prj.Intents().Add(sys.Storage_View, qnViews[j])
+	}
 
 	cfgs := istructsmem.AppConfigsType{}
 	cfg := cfgs.AddBuiltInAppConfig(testApp, adb)
 	cfg.SetNumAppWorkspaces(istructs.DefaultNumAppWorkspaces)
 	cfg.Resources.Add(istructsmem.NewCommandFunction(qnCUD, istructsmem.NullCommandExec))
-	cfg.AddSyncProjectors(istructs.Projector{
-		Name: qnProj,
-		// idempotent: the row depends on the event only
-		Func: func(event istructs.IPLogEvent, s istructs.IState, intents istructs.IIntents) error {
-			kb, err := s.KeyBuilder(sys.Storage_View, qnView)
-			if err != nil {
-				return err
-			}
-			kb.PutInt64(viewP, 1)
-			kb.PutInt64(viewOff, int64(event.WLogOffset()))
-			vb, err := intents.NewValue(kb)
-			if err != nil {
-				return err
-			}
-			vb.PutInt64(viewStamp, int64(event.RegisteredAt()))
-			return nil
-		},
-	})
+	for j := range qnProjs {
+		qnView := qnViews[j]
+		cfg.AddSyncProjectors(istructs.Projector{
+			Name: qnProjs[j],
+			// idempotent: the row depends on the event only
+			Func: func(event istructs.IPLogEvent, s istructs.IState, intents istructs.IIntents) error {
+				kb, err := s.KeyBuilder(sys.Storage_View, qnView)
+				if err != nil {
+					return err
+				}
+				kb.PutInt64(viewP, 1)
+				kb.PutInt64(viewOff, int64(event.WLogOffset()))
+				vb, err := intents.NewValue(kb)
+				if err != nil {
+					return err
+				}
+				vb.PutInt64(viewStamp, int64(event.RegisteredAt()))
+				return nil
+			},
+		})
+	}
 	appDef, err := adb.Build()
 	if err != nil {
 		return err
